@@ -121,12 +121,13 @@ def rule_recipients(program, ctx):
         else:
             ctx.ok(rid, l, "peer table iterated over a copy / without suspension")
         tgt = l.target.id if isinstance(l.target, ast.Name) else None
-        writes = [c for s in l.body for c in ast.walk(s) if isinstance(c, ast.Call) and isinstance(c.func, ast.Attribute) and c.func.attr == "write" and dotted(c.func.value) == tgt]
+        peers = {tgt} | {s_.targets[0].id for s_ in ast.walk(l) if isinstance(s_, ast.Assign) and isinstance(s_.targets[0], ast.Name) and dotted(s_.value) == tgt}
+        writes = [c for s in l.body for c in ast.walk(s) if isinstance(c, ast.Call) and isinstance(c.func, ast.Attribute) and c.func.attr == "write" and dotted(c.func.value) in peers]
         if not writes:
             ctx.bad(finding_at(P, rid, l, "the relay loop writes to nobody"))
         for w in writes:
-            def notself(expr, pol, tgt=tgt):
-                if isinstance(expr, ast.Compare) and len(expr.ops) == 1 and {dotted(expr.left), dotted(expr.comparators[0])} == {tgt, "writer"}:
+            def notself(expr, pol, tgt=tgt, peers=peers):
+                if isinstance(expr, ast.Compare) and len(expr.ops) == 1 and "writer" in {dotted(expr.left), dotted(expr.comparators[0])} and ({dotted(expr.left), dotted(expr.comparators[0])} - {"writer"}) <= peers:
                     return (isinstance(expr.ops[0], (ast.NotEq, ast.IsNot)) and pol) or (isinstance(expr.ops[0], (ast.Eq, ast.Is)) and not pol)
                 return False
 
@@ -162,8 +163,10 @@ def rule_fanout(program, ctx):
     )
     fn = program.func("nostr_relay.notifier:NotifyClient.connect")
     ge = [s for s in walk_no_nested(fn) if isinstance(s, ast.Assign) and isinstance(strip_await(s.value), ast.Call) and call_name(strip_await(s.value)) == "self.storage.get_event"]
-    if ge and ast.unparse(strip_await(ge[0].value).args[0]) == "data.hex()":
-        ctx.ok(rid, ge[0], "event = await storage.get_event(data.hex())")
+    rec = {s_.targets[0].id for s_ in walk_no_nested(fn) if isinstance(s_, ast.Assign) and isinstance(s_.targets[0], ast.Name) and "reader.read" in ast.unparse(s_.value)}
+    arg0 = strip_await(ge[0].value).args[0] if ge and strip_await(ge[0].value).args else None
+    if arg0 is not None and isinstance(arg0, ast.Call) and isinstance(arg0.func, ast.Attribute) and arg0.func.attr == "hex" and not arg0.args and dotted(arg0.func.value) in rec:
+        ctx.ok(rid, ge[0], "event = await storage.get_event(<record>.hex())")
     else:
         ctx.bad(finding_func(P, rid, fn, "the received id is not resolved through storage.get_event(data.hex())", text="def connect(...) :: get_event"))
     na = [c for c in ast.walk(fn) if isinstance(c, ast.Call) and call_name(c) == "self.storage.notify_all_connected"]
